@@ -60,7 +60,7 @@ def _read_next(reports_dir_files, last):
 
 def explore(cid, tier, replay):
     t0 = time.time()
-    ov = checklib.gen_overlay(cid, [PKG])
+    ov = checklib.gen_overlay(cid, [PKG], also=("C15",))
     binp = checklib.go_test_build(cid, PKG, ov)
     scratch = checklib.scratch_root(cid)
     test = "TestVerif" + cid
